@@ -182,10 +182,10 @@ ADDED = {
     "C13": "R-SQRTDOMAIN for np.sqrt in the predicates; R-HALFSIZE over the predicates and the point_to_<shape> functions they must agree with; R-PUREARGS. R-ISOLATED: row masks / if-chains over one scalar against thresholds do not drop a single threshold value into the fall-through case.",
     "C14": "R-SHORTCUTS; R-ADJACENCY; R-PUREARGS. R-UNTOUCHED: no function that is handed a collider modifies its state in place, directly or through np.asarray / view aliases (the property is observed through queries, so these functions belong to the scope).",
     "C15": "R-ANGLESORT (contact polygon ordered by arctan2(y, x) about the centroid); R-BOUNDEDSTORE (counter-indexed stores into local buffers are bounded by a check or by the loop count); R-STIFFNESS: both terms of the contact-plane expression carry the same Young's-modulus exponents (dimensional bookkeeping with E1, E2 as units); "
-           "R-HPLAYOUT: half-plane rows (px, py | dx, dy) are sliced only at pair boundaries. R-PLANECROSS also at the caller: before a polygon is built both tetrahedra are tested against the plane (no reduction over the stacked vertices of both). R-STIFFNESS followed from find_contact_surface to contact_plane with the exponents of the actual arguments.",
-    "C16": "R-STIFFNESS (see C15). R-STIFFNESS followed through the call chain (a pressure field passed together with the modulus applies the stiffness twice).",
+           "R-HPLAYOUT: half-plane rows (px, py | dx, dy) are sliced only at pair boundaries. R-PLANECROSS also at the caller: before a polygon is built both tetrahedra are tested against the plane (no reduction over the stacked vertices of both). R-STIFFNESS followed from find_contact_surface to contact_plane with the exponents of the actual arguments. R-CONTACTFORCE: the contact polygon is integrated as a fan of triangles over distinct consecutive vertex pairs and the centroid, each with its own area and the pressure at its own centroid (looped and vectorised forms are the same instance).",
+    "C16": "R-STIFFNESS (see C15). R-STIFFNESS followed through the call chain (a pressure field passed together with the modulus applies the stiffness twice). R-CONTACTFORCE (see C15): the force on the polygon is the sum over its triangle fan, along the plane normal.",
     "C18": "R-COFACTORSIGN; R-ERICSON (jolt); Solution.from_vertex stores weight 1 in slot 0 (R-JOHNSON). R-BITMAP sees through extracted remap helpers; vertex candidates by effects (see C09). R-JOHNSONOPT: each of the 23 tests in front of a sub-simplex of the main sub-algorithm is exactly Johnson's optimality condition (predicates expanded to literals). R-JOHNSONREC: all 43 cofactor stores of the original GJK's BarycentricCoordinates follow Johnson's recursion (factors resolved interprocedurally to y_i.(y_k - y_j)).",
-    "C19": "R-BASISGUARD. Flag loops (`while not done: ...; done = E`) are classified through their normal form `while True: ...; if E: break`.",
+    "C19": "R-BASISGUARD. Flag loops (`while not done: ...; done = E`) are classified through their normal form `while True: ...; if E: break`; state loops (`while state == Unknown`) likewise. A search loop that runs 'until nothing improved' is accepted only when it carries a per-state potential: the accepted candidate's value is stored and the next comparison is made against that stored value (a gain recomputed from the pair of states can be positive around a cycle: finding R, fixed).",
     "C20": "R-BOUNDEDSTORE (see C15).",
 }
 ALL = "R-UNPACK (tuple results unpacked in the callee's return order) and R-DUPCOND (no repeated operand / self-comparison / repeated elif test) over every function in the property's scope."
